@@ -269,33 +269,39 @@ def report(chk, name, sp, bad):
     chk.violation(sig=sig, what=what, replay_text=replay, replay_cmd="janet <this file>   (prints observed/expected/DIFFERENT)")
 
 
-FINDING_PROGRAMS = None  # filled in main (needs spaces)
-
-
-def run_findings(chk):
-    """minimal programs for behaviour the model refuses to predict (see NOTES.md): checked
-    against the weakest reading of the statement (terminates; no statement completes twice)."""
-    for name, nodes, why in S.finding_programs():
+def run_pinned(chk):
+    """hand-written minimal programs for defects found by this check (see NOTES.md): compared with the
+    model like any other program where the model predicts them, and always against the laws
+    (terminates, no crash, no statement completes twice, a finished fiber never runs again)."""
+    for name, nodes, why in S.pinned_programs():
         prog = M.number(nodes)
         item = M.render(prog)
+        try:
+            exp = M.run(prog)[0]
+        except M.Unspecified:
+            exp = None
         res = run_batch("fast", DRIVER, [item], chunk=1, jobs=1, timeout=4)
         status, text = res[0]
         chk.add(evaluations=1)
-        chk.part("findings", programs=1)
+        chk.part("pinned", programs=1)
+        chk.outcome("pinned:" + name + ":" + status)
         if status == "TIMEOUT":
             chk.violation(sig=name + ":hang", what=why + " -- the interpreter never returns (killed after 4 s)",
-                          replay_text=M.standalone(prog, None), replay_cmd="timeout 5 janet <this file>")
-            continue
-        if status == "CRASH":
+                          replay_text=M.standalone(prog, exp), replay_cmd="timeout 5 janet <this file>")
+        elif status == "CRASH":
             chk.violation(sig=name + ":crash", what=why + " -- the interpreter died: " + text[:300],
-                          replay_text=M.standalone(prog, None), replay_cmd="janet <this file>")
-            continue
-        if status == "OK":
+                          replay_text=M.standalone(prog, exp), replay_cmd="janet <this file>")
+        elif status == "OK":
             lv = law_check(prog, prog_info(prog), text)
             if lv is not None:
                 chk.violation(sig=name + ":" + lv[0], what=why + " -- " + lv[1] + " ; observed log " + text,
-                              replay_text=M.standalone(prog, None), replay_cmd="janet <this file>")
-        chk.outcome("finding:" + name + ":" + status)
+                              replay_text=M.standalone(prog, exp), replay_cmd="janet <this file>")
+            elif exp is not None and text != exp:
+                chk.violation(sig=name + ":log-differs", what=why + " -- expected log " + exp + " ; observed " + text,
+                              replay_text=M.standalone(prog, exp), replay_cmd="janet <this file>")
+        else:
+            chk.violation(sig=name + ":raised-at-top", what=why + " -- " + text[:300],
+                          replay_text=M.standalone(prog, exp), replay_cmd="janet <this file>")
 
 
 def main():
@@ -311,16 +317,18 @@ def main():
     only = chk.args.only
     plan = S.plan(chk.tier)
     pool = multiprocessing.Pool(JOBS)
-    total_shapes = set()
     total_raw = set()
+    done = []
+    rate = None        # programs per second, measured on the parts already run
     try:
-        run_findings(chk)
+        run_pinned(chk)
         for pi, name in enumerate(plan):
             if only and not re.search(only, name):
                 continue
             sp = S.SPACES[name]
-            if chk.out_of_time(0.92):
-                chk.cap("part %s (%d programs) not started: time budget" % (name, sp.size))
+            left = chk.budget * 0.95 - chk.elapsed()
+            if left <= 0 or (rate and sp.size / rate > left):
+                chk.cap("part %s (%d programs) not started: would exceed the time budget" % (name, sp.size))
                 continue
             t0 = time.time()
             jobs = [(name, lo, min(lo + CHUNK, sp.size)) for lo in range(0, sp.size, CHUNK)]
@@ -328,7 +336,9 @@ def main():
             unspec, feats = {}, {}
             bads = []
             shapes, raw = set(), set()
-            for r in pool.imap_unordered(work, jobs):
+            aborted = False
+            it = pool.imap_unordered(work, jobs)
+            for r in it:
                 ran += r["ran"]
                 skipped += r["skipped"]
                 for k, v in r["unspec"].items():
@@ -338,6 +348,19 @@ def main():
                 bads.extend(r["bad"])
                 shapes |= r["shapes"]
                 raw |= r["raw"]
+                if chk.elapsed() > chk.budget * 1.1:
+                    aborted = True
+                    break
+            if aborted:
+                pool.terminate()
+                pool = multiprocessing.Pool(JOBS)
+                chk.cap("part %s stopped after %d of %d programs: time budget" % (name, ran, sp.size))
+            else:
+                done.append(name)
+            dt = time.time() - t0
+            if ran >= 20000 and dt > 1:
+                r_now = ran / dt
+                rate = r_now if rate is None else min(rate, r_now) * 0.5 + max(rate, r_now) * 0.5
             bads.sort()
             for b in bads[:40]:
                 report(chk, name, sp, b)
@@ -345,27 +368,26 @@ def main():
                 chk.violations += len(bads) - 40
             chk.add(evaluations=ran, transitions=ran, states=len(raw))
             for s in shapes:
-                chk.outcome(name + "|" + s if False else s)
+                chk.outcome(s)
             total_raw |= raw
-            chk.part(name, space=sp.size, programs=ran, symmetric_or_invalid_skipped=skipped,
-                     excluded_unspecified=sum(unspec.values()), distinct_logs=len(raw), distinct_shapes=len(shapes),
-                     mismatches=len(bads), wall_s=round(time.time() - t0, 1))
+            chk.part(name, space=sp.size, programs=ran, excluded_unspecified=sum(unspec.values()),
+                     distinct_logs=len(raw), distinct_shapes=len(shapes), mismatches=len(bads), wall_s=round(dt, 1),
+                     complete=not aborted, what=sp.doc)
             for k, v in unspec.items():
                 chk.part(name, **{"excluded:" + k: v})
             for k, v in sorted(feats.items()):
                 chk.part("features", **{k: v})
             if ran:
-                mid = sp.size // 2
-                for idx in (0, mid, sp.size - 1):
+                for idx in (0, sp.size // 2, sp.size - 1):
                     nodes = sp.build(idx)
-                    if nodes is not None and len(chk.cov["samples"]) < 12:
-                        chk.sample({"part": name, "index": idx, "program": M.render(M.number(nodes, sp.top))}, limit=12)
-            sys.stdout.write("  part %-18s %8d programs  %6d excluded  %5d shapes  %3d mismatches  %.1fs\n" % (
-                name, ran, sum(unspec.values()), len(shapes), len(bads), time.time() - t0))
+                    if nodes is not None and len(chk.cov["samples"]) < 9 and idx == sp.size // 2:
+                        chk.sample({"part": name, "index": idx, "program": M.render(M.number(nodes, sp.top))}, limit=9)
+            sys.stdout.write("  part %-14s %8d programs  %6d excluded  %5d shapes  %3d mismatches  %.1fs\n" % (
+                name, ran, sum(unspec.values()), len(shapes), len(bads), dt))
             sys.stdout.flush()
     finally:
         pool.terminate()
-    chk.cov["bound_completed"] = S.bound_text(chk.tier)
+    chk.cov["bound_completed"] = S.bound_text(chk.tier, done)
     chk.cov["distinct_logs"] = len(total_raw)
     chk.finish()
 
